@@ -156,6 +156,10 @@ func doInitExtensions(domain string, agentPaths []string, execCtx *rapidContext,
 		}
 		agentName := fmt.Sprintf("extension-%s-%d", path.Base(agentPath), execCtx.runtimeDomainGeneration)
 
+		// the exit channel must exist before the process can possibly exit: the events watcher
+		// panics on a termination event for a process without one
+		execCtx.shutdownContext.createExitedChannel(agentName)
+
 		err = execCtx.supervisor.Exec(context.Background(), &supvmodel.ExecRequest{
 			Domain: domain,
 			Name:   agentName,
@@ -173,11 +177,10 @@ func doInitExtensions(domain string, agentPaths []string, execCtx *rapidContext,
 			StderrWriter: agentStderrWriter,
 		})
 		if err != nil {
+			execCtx.shutdownContext.removeExitedChannel(agentName)
 			agentLaunchError(agent, execCtx.appCtx, err)
 			return err
 		}
-
-		execCtx.shutdownContext.createExitedChannel(agentName)
 	}
 
 	if err := initFlow.AwaitExternalAgentsRegistered(); err != nil {
@@ -331,6 +334,9 @@ func doRuntimeDomainInit(execCtx *rapidContext, sbInfoFromInit interop.SandboxIn
 	checkCredentials(execCtx, bootstrapEnv)
 	name := fmt.Sprintf("%s-%d", runtimeProcessName, execCtx.runtimeDomainGeneration)
 
+	// see doInitExtensions: the exit channel has to precede the process
+	execCtx.shutdownContext.createExitedChannel(name)
+
 	err = execCtx.supervisor.Exec(context.Background(), &supvmodel.ExecRequest{
 		Domain: RuntimeDomain,
 		Name:   name,
@@ -367,10 +373,9 @@ func doRuntimeDomainInit(execCtx *rapidContext, sbInfoFromInit interop.SandboxIn
 		}
 
 		runtimeDoneStatus = telemetry.RuntimeDoneError
+		execCtx.shutdownContext.removeExitedChannel(name)
 		return err
 	}
-
-	execCtx.shutdownContext.createExitedChannel(name)
 
 	if err := initFlow.AwaitRuntimeRestoreReady(); err != nil {
 		runtimeDoneStatus = telemetry.RuntimeDoneError
